@@ -442,7 +442,7 @@ theorem applyFunction_quiet (fuel : Nat) (f : FuncVal) (args : List Obj) (st : S
 
 /-- the binding behind the reference `.ref re rn` (handed out for the name `nm`) is one the purity
 test trusts: a binding of a DEPTH-0 frame that holds a function value or whose name `nm` is all-caps.
-(Since repo fix 066677f a function held by a variable of an enclosing CALL - `g` in
+(Since repo fix 103fa2c a function held by a variable of an enclosing CALL - `g` in
 `mk=func(g){func(x){g(x)}}` - is not trusted any more: reading it is a miss, like any other captured value.) -/
 def Trusted (st : St) (nm : String) (re : Nat) (rn : String) : Prop :=
   ∃ fr, st.frames[re]? = some fr ∧ fr.depth = 0 ∧
